@@ -402,7 +402,11 @@ def m_allany(is_all):
             i = z3.Int(I.path.fresh_name("q"))
             I.assign_target(gen.target, getter(mk("int", i)), sub)
             rng = z3.And(i >= 0, i < to_term(count, "int"))
-            val = I.pure(lambda: _as_boolsym(I, I.eval(node.elt, sub)), assume=rng)
+            from .interp_call import NoFeasiblePath
+            try:
+                val = I.pure(lambda: _as_boolsym(I, I.eval(node.elt, sub)), assume=rng)
+            except NoFeasiblePath:
+                return is_all
             body = to_term(val, "bool")
             if is_all:
                 return mk("bool", z3.ForAll([i], z3.Implies(rng, body)))
@@ -874,11 +878,14 @@ def _be_bytes(t, size, signed):
 
 
 def _fp_bytes(ft, size):
-    if size == 4:
-        bv = z3.fpToIEEEBV(z3.fpToFP(RNE, ft, F32))
-    else:
-        bv = z3.fpToIEEEBV(ft)
-    return [mk("int", z3.BV2Int(z3.Extract(8 * (size - k) - 1, 8 * (size - 1 - k), bv))) for k in range(size)]
+    from .values import UF_F32B, UF_F64B
+    fs = UF_F32B if size == 4 else UF_F64B
+    return [Sym("int", f(ft)) for f in fs]
+
+
+def fp_of_byte_terms(bs):
+    from .values import UF_F32, UF_F64
+    return Sym("float", (UF_F32 if len(bs) == 4 else UF_F64)(*bs))
 
 
 def struct_pack(I, args, kw):
@@ -987,11 +994,7 @@ def struct_unpack(I, args, kw, prefix_ok=False):
                 t = z3.If(t >= (1 << (8 * size - 1)), t - (1 << (8 * size)), t)
             out.append(mk("int", z3.simplify(t)))
         elif kind == "float":
-            bv = z3.Concat(*[z3.Int2BV(b, 8) for b in bs]) if size > 1 else z3.Int2BV(bs[0], 8)
-            if size == 4:
-                out.append(Sym("float", z3.fpToFP(RNE, z3.fpBVToFP(bv, F32), F64)))
-            else:
-                out.append(Sym("float", z3.fpBVToFP(bv, F64)))
+            out.append(fp_of_byte_terms(bs))
         else:
             out.append(mk("bool", bs[0] != 0))
         pos = pos + size
